@@ -20,6 +20,9 @@ pub struct Case {
     /// `None`: no offset limit; `Some((which, delta))`: start of the
     /// `which`-th non-empty segment plus `delta - 1`.
     pub limit: Option<(u8, u8)>,
+    /// Arena action applied (through the returned record's `arena()`) after record `i`.
+    #[serde(default)]
+    pub nudges: Vec<super::codec::Nudge>,
 }
 
 struct Segment {
@@ -29,6 +32,12 @@ struct Segment {
 }
 
 pub fn check_case(case: &Case) -> CaseResult {
+    // Released arena chunks stay mapped and poisoned for the duration of the case, so a
+    // record that points into released memory reads 0xFC bytes instead of undefined contents.
+    super::iovec_sm::with_quarantine(|| check_case_inner(case))
+}
+
+fn check_case_inner(case: &Case) -> CaseResult {
     let stream = case.stream.bytes();
     let (ranges, sentinel_positions) = hcobs_ref::split_stream(&stream);
     let segments: Vec<Segment> = ranges
@@ -111,6 +120,9 @@ pub fn check_case(case: &Case) -> CaseResult {
                 format!("{}: got {} at {range:?}, expected {} at {want_range:?}", describe(i), show(&bytes), show(want_bytes)),
             ));
         }
+        if !case.nudges.is_empty() {
+            super::codec::apply_nudge(iovec.arena(), case.nudges[i % case.nudges.len()]);
+        }
         // The delimiter that ended this record (if any) is the last one read.
         let want_last = if (range.end as usize) < stream.len() {
             Some(range.end)
@@ -168,15 +180,17 @@ pub fn long_case_strategy() -> impl Strategy<Value = Case> {
         stream_in::delivery(),
         proptest::option::weighted(0.2, (any::<u8>(), 0u8..3)),
         proptest::option::weighted(0.15, (any::<u8>(), 0u8..3)),
-        prop_oneof![Just(2u8), Just(3), Just(4), Just(5), Just(6), Just(7), Just(8), Just(9)],
+        prop_oneof![Just(2u8), Just(3), Just(4), Just(5), Just(6), Just(7), Just(8), Just(9), Just(12), Just(13), Just(14), Just(15), Just(9), Just(13)],
+        prop_oneof![1 => Just(vec![]), 1 => proptest::collection::vec(super::codec::nudge(), 1..5)],
     )
-        .prop_map(|(stream, mut delivery, max_size, limit, block)| {
+        .prop_map(|(stream, mut delivery, max_size, limit, block, nudges)| {
             delivery.block = block;
             Case {
                 stream,
                 delivery,
                 max_size,
                 limit,
+                nudges,
             }
         })
 }
@@ -187,12 +201,14 @@ pub fn case_strategy() -> impl Strategy<Value = Case> {
         stream_in::delivery(),
         proptest::option::weighted(0.35, (any::<u8>(), 0u8..3)),
         proptest::option::weighted(0.3, (any::<u8>(), 0u8..3)),
+        prop_oneof![2 => Just(vec![]), 1 => proptest::collection::vec(super::codec::nudge(), 1..5)],
     )
-        .prop_map(|(stream, delivery, max_size, limit)| Case {
+        .prop_map(|(stream, delivery, max_size, limit, nudges)| Case {
             stream,
             delivery,
             max_size,
             limit,
+            nudges,
         })
 }
 
@@ -227,6 +243,7 @@ fn truncated_logs() -> Vec<Case> {
                 },
                 max_size: None,
                 limit: None,
+                nudges: vec![],
             });
         }
     }
